@@ -22,7 +22,9 @@ CHECK = dict(
               "with an independent crypto/sha256|sha512 oracle over the bytes handed to the caller; exhaustive boundary sweep of small lengths; native go fuzz (bytes decoded into the same Case struct) in thorough",
     level_text="Generated-input and fault-sequence search. Oracle: whenever a pass over the stream ends cleanly (bare io.EOF from Read, nil from io.ReadAll/io.Copy/RawBody/ToOCIConfig, "
                "errs.ErrFileNotFound from ReadFile of an absent file) the bytes handed out in that pass alone must hash to the descriptor's digest and, if a size is stated, number exactly that many "
-               "(also for a bare io.EOF that follows an earlier error, and for every pass after a rewind); Descriptor.GetData must not return data that fails the same test. Non-vacuity: intact content "
+               "(also for a bare io.EOF that follows an earlier error, and for every pass after a rewind); a pass that ends cleanly must have consumed the source to its end (an over-long stream "
+               "must not go unnoticed even when the bytes handed out are the content); an archive walk (GetTarReader to io.EOF) followed by a nil Close is judged like a clean end when the source was drained; "
+               "Descriptor.GetData must not return data that fails the same test. Non-vacuity: intact content "
                "served by a conforming source with fewer retryable faults than the retry limit must read completely and equal the content (also after rewinds). Exploration, not proof; the boundary job "
                "enumerates every truncation offset / flipped byte / 1-2 byte overrun x every constant buffer size 0..len+2 x chunking x terminal-with-data x size known/unknown x algorithm for lengths <= 7 (quick) / <= 33 (thorough).",
     level_note="Trusted: regmodel (in-process registry model; enforces HTTP framing), the harness' scripted source and body wrapper, crypto/sha256 and crypto/sha512, archive/tar+gzip for building tar contents. "
